@@ -7,5 +7,5 @@ if ! git diff --quiet; then echo "/repo has uncommitted changes"; exit 3; fi
 patch=$(realpath "$patch"); cd /repo; if ! git apply --check "$patch" 2>/dev/null; then echo "PATCH DOES NOT APPLY"; exit 3; fi
 git apply "$patch"
 cd /verif
-for p in "$@"; do ./vx check $p | grep -E "VIOLATION|UNDECIDED|KNOWN|tier=" | cut -c1-300; echo "  -> $p rc=${PIPESTATUS[0]}"; done
+for p in "$@"; do VERIF_EVIDENCE_DIR=/verif/build/evidence-scratch ./vx check $p | grep -E "VIOLATION|UNDECIDED|KNOWN|tier=" | cut -c1-300; echo "  -> $p rc=${PIPESTATUS[0]}"; done
 git -C /repo checkout -- .
